@@ -357,3 +357,127 @@ def ua_bounds(ctx):
         else:
             out.append(bad(R, 'Desync|marker', 'the PhantomData<UnsafeCell<T>> marker is gone'))
     return out
+
+
+def _peel_local(fn, o, depth=0):
+    """The local an operand designates after peeling `&mut x`, reborrows, moves and Pin::new / new_unchecked."""
+    if o['k'] not in ('copy', 'move'):
+        return None
+    l = o['pl']['l']
+    for _ in range(12):
+        ds = fn.defs().get(l, [])
+        if len(ds) != 1:
+            return l
+        d = ds[0]
+        if d[0] == 'stmt':
+            rv = d[3]
+            if rv['k'] in ('ref', 'rawptr'):
+                l = rv['pl']['l']
+                continue
+            if rv['k'] == 'use' and rv['op']['k'] in ('copy', 'move') and any(p['k'] == 'deref' for p in rv['op']['pl']['p']) is False and fn.local_ty(rv['op']['pl']['l']).startswith('&'):
+                l = rv['op']['pl']['l']
+                continue
+            return l
+        if d[0] == 'call':
+            t = d[2]
+            if (t['func'].get('fn') or '') in ('core::pin::Pin::new_unchecked', 'core::pin::Pin::new') and t['args'] and t['args'][0]['k'] in ('copy', 'move'):
+                l = t['args'][0]['pl']['l']
+                continue
+            return l
+        return l
+    return l
+
+
+def ua_borrow(ctx):
+    """The future a future_sync caller builds from `&mut T` is destroyed before the queue slot is released.
+
+    Either the job closure wraps the caller's future in an in-crate async block (which destroys the awaited future when it completes, before
+    returning Ready), or SyncFuture::poll itself destroys the future before it sends task_finished."""
+    from .ordq import await_sites, edge_for
+    F = ctx.F
+    out = []
+    R = 'UA-borrow'
+    sync_poll = F.fn('<desync::SyncFuture as core::future::future::Future>::poll')
+    # (b) does SyncFuture::poll destroy the completed future before releasing the slot?
+    poll_drops_first = None
+    if sync_poll:
+        for bb, t in sync_poll.calls():
+            name = t['func'].get('fn') or ''
+            if name not in ('futures_util::future::future::FutureExt::poll_unpin', 'core::future::future::Future::poll'):
+                continue
+            st = clean_ty(t.get('self_ty') or '').replace('&mut ', '').replace('&', '')
+            if st.startswith('core::pin::Pin<'):
+                st = st[len('core::pin::Pin<'):-1].replace('&mut ', '')
+            if st not in [g['name'] for g in sync_poll.generics]:
+                continue
+            L = _peel_local(sync_poll, t['args'][0])
+            e = result_edges(sync_poll, bb)
+            ready = edge_for(e, 'core::task::poll::Poll', 'Ready') if e else None
+            if L is None or ready is None:
+                continue
+            rel = set()
+            for b2, t2 in sync_poll.calls():
+                if sync_poll.blocks[b2]['cleanup']:
+                    continue
+                if any('task_finished' in render(sync_poll.expr_of_operand(a)) for a in t2['args'] if a['k'] != 'const'):
+                    rel.add(b2)
+            rel = set(b for b in rel if b in sync_poll.reachable_blocks(ready))
+            drops = set(b for b, blk in enumerate(sync_poll.blocks) if blk['term'] and blk['term']['k'] == 'drop' and not blk['term']['pl']['p'] and blk['term']['pl']['l'] == L)
+            # ... or handed to mem::drop
+            for b2, t2 in sync_poll.calls():
+                if (t2['func'].get('fn') or '') == 'core::mem::drop' and t2['args'] and t2['args'][0]['k'] == 'move' and not t2['args'][0]['pl']['p']:
+                    a = t2['args'][0]['pl']['l']
+                    ds = sync_poll.defs().get(a, [])
+                    if a != L and len(ds) == 1 and ds[0][0] == 'stmt' and ds[0][3]['k'] == 'use' and ds[0][3]['op']['k'] == 'move' and not ds[0][3]['op']['pl']['p']:
+                        a = ds[0][3]['op']['pl']['l']
+                    if a == L:
+                        drops.add(b2)
+            if rel:
+                poll_drops_first = sync_poll.must_pass(ready, rel, drops)
+    n = 0
+    for fn in F.crate_fns():
+        if not fn.is_closure or fn.is_coroutine:
+            continue
+        if not [d for d in raw_derefs(fn) if d[2] == '*mut T']:
+            continue
+        m = F.fn(fn.parent) if fn.parent else None
+        if not m:
+            continue
+        found = None
+        for bb, t in m.calls():
+            for a in t['args']:
+                if a['k'] != 'const' and clean_ty(a['pl']['ty']) == '{closure:%s}' % fn.name:
+                    found = t
+        if not found or (found['func'].get('fn') or '') != S + 'future_sync':
+            continue
+        n += 1
+        key = short(fn.name)
+        # (a) the closure returns an in-crate async block that awaits the caller's future
+        ret = fn.expr_of_local(0)
+        wrapped = False
+        why = 'the closure hands the caller\'s future to the scheduler as it is'
+        if ret[0] == 'agg' and ret[1] == 'coroutine' and F.fn(ret[2]):
+            co = F.fn(ret[2])
+            aw = await_sites(co)
+            if not aw:
+                why = 'the async block returned by the closure awaits nothing'
+            else:
+                wrapped = True
+                for a in aw:
+                    pt = co.blocks[a['poll_bb']]['term']
+                    L = _peel_local(co, pt['args'][0])
+                    drops = set(b for b, blk in enumerate(co.blocks) if blk['term'] and blk['term']['k'] == 'drop' and not blk['term']['pl']['p'] and blk['term']['pl']['l'] == L)
+                    if a['ready'] is None or L is None or not co.must_pass(a['ready'], set(co.exits()), drops):
+                        wrapped = False
+                        why = 'the async block can return without destroying the awaited future'
+        if wrapped:
+            out.append(ok(R, key, 'the caller\'s future is awaited inside an async block, which destroys it (and the &mut T it holds) before reporting Ready', fn=fn.name))
+        elif poll_drops_first:
+            out.append(ok(R, key, 'SyncFuture::poll destroys the completed future before it releases the queue slot', fn=fn.name))
+        elif poll_drops_first is None and not wrapped and sync_poll is None:
+            out.append(undecided(R, key, 'SyncFuture::poll not found'))
+        else:
+            out.append(bad(R, key, '%s, and SyncFuture::poll sends task_finished (releasing the queue slot) before it destroys the completed future: a future whose destructor touches the &mut T it was given runs it while the next job already has access' % why, fn=fn.name))
+    if n < 1:
+        out.append(undecided(R, 'floor', 'no future_sync job closure dereferencing the payload pointer was found'))
+    return out
